@@ -320,6 +320,234 @@ func c05Annotate(o *osm.OSM, r *gen.R) {
 	}
 }
 
+// c05BoundaryOps are the boundary values of the optional parts of the *value* side: a non-nil
+// pointer to an all-zero struct, an empty but non-nil slice, zero ids / versions / coordinates,
+// empty strings. Each operator rewrites every place of a container it applies to.
+var c05BoundaryOps = []struct {
+	name string
+	f    func(o *osm.OSM)
+}{
+	{"top.bounds=&zero", func(o *osm.OSM) { o.Bounds = &osm.Bounds{} }},
+	{"top.bounds=minlat-only", func(o *osm.OSM) { o.Bounds = &osm.Bounds{MinLat: 1.5} }},
+	{"top.bounds=maxlon-only", func(o *osm.OSM) { o.Bounds = &osm.Bounds{MaxLon: -0.25} }},
+	{"top.lists=empty-nonnil", func(o *osm.OSM) {
+		if len(o.Nodes) == 0 {
+			o.Nodes = osm.Nodes{}
+		}
+		if len(o.Ways) == 0 {
+			o.Ways = osm.Ways{}
+		}
+		if len(o.Relations) == 0 {
+			o.Relations = osm.Relations{}
+		}
+		if len(o.Changesets) == 0 {
+			o.Changesets = osm.Changesets{}
+		}
+		if len(o.Notes) == 0 {
+			o.Notes = osm.Notes{}
+		}
+		if len(o.Users) == 0 {
+			o.Users = osm.Users{}
+		}
+	}},
+	{"top.strings=empty", func(o *osm.OSM) {
+		o.Version, o.Generator, o.Copyright, o.Attribution, o.License = "", "", "", "", ""
+	}},
+	{"elements=all-zero", func(o *osm.OSM) {
+		for i := range o.Nodes {
+			o.Nodes[i] = &osm.Node{}
+		}
+		for i := range o.Ways {
+			o.Ways[i] = &osm.Way{}
+		}
+		for i := range o.Relations {
+			o.Relations[i] = &osm.Relation{}
+		}
+		for i := range o.Changesets {
+			o.Changesets[i] = &osm.Changeset{}
+		}
+		for i := range o.Notes {
+			o.Notes[i] = &osm.Note{}
+		}
+		for i := range o.Users {
+			o.Users[i] = &osm.User{}
+		}
+	}},
+	{"element.id=0", func(o *osm.OSM) {
+		for _, e := range o.Nodes {
+			e.ID, e.Lat, e.Lon, e.Version, e.UserID, e.ChangesetID = 0, 0, 0, 0, 0, 0
+		}
+		for _, e := range o.Ways {
+			e.ID, e.Version, e.UserID, e.ChangesetID = 0, 0, 0, 0
+		}
+		for _, e := range o.Relations {
+			e.ID, e.Version, e.UserID, e.ChangesetID = 0, 0, 0, 0
+		}
+	}},
+	{"element.bounds=&zero", func(o *osm.OSM) {
+		for _, e := range o.Ways {
+			e.Bounds = &osm.Bounds{}
+		}
+		for _, e := range o.Relations {
+			e.Bounds = &osm.Bounds{}
+		}
+	}},
+	{"element.committed=&zero", func(o *osm.OSM) {
+		for _, e := range o.Nodes {
+			e.Committed = &time.Time{}
+		}
+		for _, e := range o.Ways {
+			e.Committed = &time.Time{}
+		}
+		for _, e := range o.Relations {
+			e.Committed = &time.Time{}
+		}
+	}},
+	{"element.timestamp=zero", func(o *osm.OSM) {
+		for _, e := range o.Nodes {
+			e.Timestamp = time.Time{}
+		}
+		for _, e := range o.Ways {
+			e.Timestamp = time.Time{}
+		}
+		for _, e := range o.Relations {
+			e.Timestamp = time.Time{}
+		}
+	}},
+	{"element.tags=empty-nonnil", func(o *osm.OSM) {
+		for _, e := range o.Nodes {
+			e.Tags = osm.Tags{}
+		}
+		for _, e := range o.Ways {
+			e.Tags = osm.Tags{}
+		}
+		for _, e := range o.Relations {
+			e.Tags = osm.Tags{}
+		}
+		for _, e := range o.Changesets {
+			e.Tags = osm.Tags{}
+		}
+	}},
+	{"element.tag=empty-key-and-value", func(o *osm.OSM) {
+		for _, e := range o.Nodes {
+			e.Tags = osm.Tags{{Key: "", Value: ""}}
+		}
+		for _, e := range o.Ways {
+			e.Tags = osm.Tags{{Key: "k", Value: ""}}
+		}
+		for _, e := range o.Relations {
+			e.Tags = osm.Tags{{Key: "", Value: "v"}}
+		}
+	}},
+	{"element.strings=empty", func(o *osm.OSM) {
+		for _, e := range o.Nodes {
+			e.User = ""
+		}
+		for _, e := range o.Ways {
+			e.User = ""
+		}
+		for _, e := range o.Relations {
+			e.User = ""
+			for i := range e.Members {
+				e.Members[i].Role = ""
+			}
+		}
+	}},
+	{"way.nodes=empty-nonnil", func(o *osm.OSM) {
+		for _, e := range o.Ways {
+			e.Nodes = osm.WayNodes{}
+		}
+	}},
+	{"way.nodes=zero-ids", func(o *osm.OSM) {
+		for _, e := range o.Ways {
+			e.Nodes = osm.WayNodes{{}, {}}
+		}
+	}},
+	{"updates=empty-nonnil", func(o *osm.OSM) {
+		for _, e := range o.Ways {
+			e.Updates = osm.Updates{}
+		}
+		for _, e := range o.Relations {
+			e.Updates = osm.Updates{}
+		}
+	}},
+	{"updates=zero-update", func(o *osm.OSM) {
+		for _, e := range o.Ways {
+			e.Updates = osm.Updates{{}}
+		}
+		for _, e := range o.Relations {
+			e.Updates = osm.Updates{{}}
+		}
+	}},
+	{"relation.members=empty-nonnil", func(o *osm.OSM) {
+		for _, e := range o.Relations {
+			e.Members = osm.Members{}
+		}
+	}},
+	{"relation.members=zero-member", func(o *osm.OSM) {
+		for _, e := range o.Relations {
+			e.Members = osm.Members{{}, {Type: osm.TypeNode}}
+		}
+	}},
+	{"member.nodes=empty-nonnil", func(o *osm.OSM) {
+		for _, e := range o.Relations {
+			for i := range e.Members {
+				e.Members[i].Nodes = osm.WayNodes{}
+			}
+		}
+	}},
+	{"changeset.discussion=&zero", func(o *osm.OSM) {
+		for _, e := range o.Changesets {
+			e.Discussion = &osm.ChangesetDiscussion{}
+		}
+	}},
+	{"changeset.discussion.comments=empty-nonnil", func(o *osm.OSM) {
+		for _, e := range o.Changesets {
+			e.Discussion = &osm.ChangesetDiscussion{Comments: []*osm.ChangesetComment{}}
+		}
+	}},
+	{"changeset.discussion.comment=&zero", func(o *osm.OSM) {
+		for _, e := range o.Changesets {
+			e.Discussion = &osm.ChangesetDiscussion{Comments: []*osm.ChangesetComment{{}}}
+		}
+	}},
+	{"changeset.change=&zero", func(o *osm.OSM) {
+		for _, e := range o.Changesets {
+			e.Change = &osm.Change{}
+		}
+	}},
+	{"changeset.change.block=&zero", func(o *osm.OSM) {
+		for _, e := range o.Changesets {
+			e.Change = &osm.Change{Create: &osm.OSM{}, Delete: &osm.OSM{}}
+		}
+	}},
+	{"changeset.change.block.bounds=&zero", func(o *osm.OSM) {
+		for _, e := range o.Changesets {
+			e.Change = &osm.Change{Modify: &osm.OSM{Bounds: &osm.Bounds{}, Nodes: osm.Nodes{{ID: 7, Visible: true}, {ID: 8}}}}
+		}
+	}},
+	{"note.comments=empty-nonnil", func(o *osm.OSM) {
+		for _, e := range o.Notes {
+			e.Comments = []*osm.NoteComment{}
+		}
+	}},
+	{"note.comment=&zero", func(o *osm.OSM) {
+		for _, e := range o.Notes {
+			e.Comments = []*osm.NoteComment{{}}
+		}
+	}},
+	{"user.languages=empty-nonnil", func(o *osm.OSM) {
+		for _, e := range o.Users {
+			e.Languages = []string{}
+		}
+	}},
+	{"user.languages=empty-string", func(o *osm.OSM) {
+		for _, e := range o.Users {
+			e.Languages = []string{""}
+		}
+	}},
+}
+
 // ---------------------------------------------------------------------------------------
 // reporting
 
@@ -360,6 +588,61 @@ var c05Opts = eq.Options{SortTags: true, SkipFields: map[string]bool{
 }}
 
 func c05Dump(v any) string { return eq.DumpWith(v, c05Opts) }
+
+// c05Norm identifies a non-nil pointer to an all-zero / empty optional part with its absence
+// (the pointer analogue of nil-versus-empty slices, which the property does not speak about):
+// bounds without extent, committed at the zero instant, a discussion without comments, a change
+// without attributes and blocks. It works in place; callers pass values they own.
+func c05Norm(v any) {
+	zb := func(b **osm.Bounds) {
+		if *b != nil && **b == (osm.Bounds{}) {
+			*b = nil
+		}
+	}
+	zt := func(t **time.Time) {
+		if *t != nil && (*t).IsZero() {
+			*t = nil
+		}
+	}
+	switch x := v.(type) {
+	case *osm.OSM:
+		if x == nil {
+			return
+		}
+		zb(&x.Bounds)
+		for _, e := range c05Slots(x) {
+			c05Norm(e.v)
+		}
+	case *osm.Change:
+		if x == nil {
+			return
+		}
+		for _, b := range []**osm.OSM{&x.Create, &x.Modify, &x.Delete} {
+			c05Norm(*b)
+			if *b != nil && eq.Dump(*b) == eq.Dump(&osm.OSM{}) {
+				*b = nil // a block without attributes and objects ≡ no block
+			}
+		}
+	case *osm.Node:
+		zt(&x.Committed)
+	case *osm.Way:
+		zt(&x.Committed)
+		zb(&x.Bounds)
+	case *osm.Relation:
+		zt(&x.Committed)
+		zb(&x.Bounds)
+	case *osm.Changeset:
+		if x.Discussion != nil && len(x.Discussion.Comments) == 0 {
+			x.Discussion = nil
+		}
+		if c := x.Change; c != nil {
+			c05Norm(c)
+			if *c == (osm.Change{}) {
+				x.Change = nil
+			}
+		}
+	}
+}
 
 // c05DiffField names the first field of two structs (behind pointers) that differs.
 func c05DiffField(want, got any) string {
@@ -404,6 +687,9 @@ func c05Compare(rp *c05Rep, path string, want, got *osm.OSM, visUnset map[string
 		}
 		return
 	}
+	want = eq.Clone(want)
+	c05Norm(want)
+	c05Norm(got)
 	top := []struct{ name, w, g string }{
 		{"version", want.Version, got.Version}, {"generator", want.Generator, got.Generator},
 		{"copyright", want.Copyright, got.Copyright}, {"attribution", want.Attribution, got.Attribution},
@@ -465,6 +751,9 @@ func c05CompareChange(rp *c05Rep, path string, want, got *osm.Change) {
 		}
 		return
 	}
+	want = eq.Clone(want)
+	c05Norm(want)
+	c05Norm(got)
 	top := []struct{ name, w, g string }{
 		{"version", want.Version, got.Version}, {"generator", want.Generator, got.Generator},
 		{"copyright", want.Copyright, got.Copyright}, {"attribution", want.Attribution, got.Attribution},
@@ -783,9 +1072,23 @@ func c05Canon(v any) string {
 // the flows
 
 type c05Run struct {
-	res     *fw.Result
-	configs []c05Config
-	docSig  string
+	res       *fw.Result
+	configs   []c05Config
+	docSig    string
+	boundaryP float64 // probability of each value-side boundary operator in the round-trip flows
+}
+
+// boundary applies each boundary operator with probability boundaryP.
+func (run *c05Run) boundary(o *osm.OSM, r *gen.R) {
+	if run.boundaryP <= 0 || o == nil {
+		return
+	}
+	for _, op := range c05BoundaryOps {
+		if r.Chance(run.boundaryP) {
+			op.f(o)
+			run.res.Put("boundary_operators_applied", op.name)
+		}
+	}
 }
 
 func (run *c05Run) recordCodec(cfg c05Config, codec *c05Codec) {
@@ -972,6 +1275,13 @@ func (run *c05Run) checkDoc(d *jsonw.Doc, st *jsonw.Style, r *gen.R, standalone 
 	// marshal round trip of the value the document denotes, plus annotations
 	v := eq.Clone(ex.o)
 	c05Annotate(v, r)
+	run.boundary(v, r)
+	run.checkValue(v, standalone)
+}
+
+// checkValue runs the marshal round trip on a container value and, if asked, on each of its
+// elements alone.
+func (run *c05Run) checkValue(v *osm.OSM, standalone bool) {
 	run.marshalFlow("roundtrip", c05BoundsClass(v), v, func(rp *c05Rep, doc any) { c05ShapeOSM(rp, "", doc, v) },
 		func() any { return &osm.OSM{} }, func(rp *c05Rep, got any) { c05Compare(rp, "roundtrip", v, got.(*osm.OSM), nil) }, true)
 
@@ -992,11 +1302,14 @@ func (run *c05Run) checkDoc(d *jsonw.Doc, st *jsonw.Style, r *gen.R, standalone 
 			}
 			c05ShapeElement(rp, "element/", el, s.kind, s.v)
 		}, func() any { return reflect.New(reflect.TypeOf(s.v).Elem()).Interface() }, func(rp *c05Rep, got any) {
-			if dw, dg := c05Dump(s.v), c05Dump(got); dw != dg {
-				f := c05DiffField(s.v, got)
+			want := eq.Clone(s.v)
+			c05Norm(want)
+			c05Norm(got)
+			if dw, dg := c05Dump(want), c05Dump(got); dw != dg {
+				f := c05DiffField(want, got)
 				rp.violate("element/"+s.kind+"."+f, fmt.Sprintf("standalone %s round trip differs in %s: %s", s.kind, f, eq.Diff(dw, dg)))
 			}
-			if cs, ok := s.v.(*osm.Changeset); ok {
+			if cs, ok := want.(*osm.Changeset); ok {
 				c05CompareChange(rp, "element/changeset-change", cs.Change, got.(*osm.Changeset).Change)
 			}
 		}, false)
@@ -1061,10 +1374,16 @@ func (run *c05Run) checkChange(c *jsonw.ChangeDoc, st *jsonw.Style, r *gen.R) {
 	for _, o := range []*osm.OSM{v.Create, v.Modify, v.Delete} {
 		if o != nil {
 			c05Annotate(o, r)
+			run.boundary(o, r)
 		}
 	}
+	run.checkChangeValue(v, blocks > 0)
+}
+
+// checkChangeValue runs the marshal round trip on a change value.
+func (run *c05Run) checkChangeValue(v *osm.Change, blocks bool) {
 	run.marshalFlow("roundtrip/change", c05BoundsClass(v.Create, v.Modify, v.Delete), v, func(rp *c05Rep, doc any) { c05ShapeChange(rp, doc, v) },
-		func() any { return &osm.Change{} }, func(rp *c05Rep, got any) { c05CompareChange(rp, "roundtrip/change", v, got.(*osm.Change)) }, blocks > 0)
+		func() any { return &osm.Change{} }, func(rp *c05Rep, got any) { c05CompareChange(rp, "roundtrip/change", v, got.(*osm.Change)) }, blocks)
 }
 
 // ---------------------------------------------------------------------------------------
@@ -1085,6 +1404,33 @@ func c05PartNames(kind string) []string {
 		g.Element(kind)
 	}
 	return p.AskedSorted()
+}
+
+// c05BoundaryBase builds the base containers of the boundary-value enumeration.
+func c05BoundaryBase(k int, r *gen.R) *osm.OSM {
+	two := func(p jsonw.Presence) *osm.OSM {
+		g := jsonw.NewGen(r, p)
+		g.MaxList = 3
+		d := &jsonw.Doc{VersionKind: jsonw.VersionString, Version: "0.6"}
+		s := "gen"
+		d.Generator = &s
+		for _, kind := range jsonw.Kinds {
+			d.Elements = append(d.Elements, g.Element(kind), g.Element(kind))
+		}
+		return c05Expect(d).o
+	}
+	switch k {
+	case 0:
+		return &osm.OSM{Version: "0.6"}
+	case 1:
+		return &osm.OSM{Version: "0.6", Nodes: osm.Nodes{{ID: 1, Lat: 1, Lon: 2, Visible: true, Version: 1}},
+			Ways:       osm.Ways{{ID: 2, Visible: true, Nodes: osm.WayNodes{{ID: 1}}}},
+			Relations:  osm.Relations{{ID: 3, Visible: true, Members: osm.Members{{Type: osm.TypeWay, Ref: 2, Role: "outer"}}}},
+			Changesets: osm.Changesets{{ID: 4}}, Notes: osm.Notes{{ID: 5}}, Users: osm.Users{{ID: 6}}}
+	case 2:
+		return two(&jsonw.Fixed{Invert: true}) // every optional part present
+	}
+	return two(jsonw.Random{R: r, P: 0.5})
 }
 
 func c05Exec(c fw.Case) *fw.Result {
@@ -1177,11 +1523,66 @@ func c05Exec(c fw.Case) *fw.Result {
 				res.Put("toggled_parts", fmt.Sprintf("%s/%v", n, invert))
 			}
 		}
+	case "boundary-value":
+		// value side: every boundary operator alone, each together with an all-zero top-level
+		// bounds, and all at once; on four base containers; as osm.OSM, as each block of an
+		// osm.Change, and element by element
+		base := c05BoundaryBase(int(c.Int("base")), r)
+		type combo struct {
+			name string
+			ops  []int
+		}
+		combos := []combo{{"none", nil}}
+		all := []int{}
+		for i, op := range c05BoundaryOps {
+			combos = append(combos, combo{op.name, []int{i}})
+			if i > 0 {
+				combos = append(combos, combo{"top.bounds=&zero+" + op.name, []int{0, i}})
+			}
+			if !strings.HasPrefix(op.name, "top.bounds=") && op.name != "elements=all-zero" {
+				all = append(all, i)
+			}
+		}
+		combos = append(combos, combo{"all", append(all, 0)})
+		for ci, cb := range combos {
+			if ci%4 != int(c.Int("slice")) {
+				continue
+			}
+			v := eq.Clone(base)
+			for _, i := range cb.ops {
+				c05BoundaryOps[i].f(v)
+			}
+			res.Put("boundary_operators_applied", cb.name)
+			run.docSig = fmt.Sprintf("boundary/base%d/%s", c.Int("base"), cb.name)
+			run.checkValue(v, true)
+			for k, ch := range []*osm.Change{{Create: eq.Clone(v)}, {Modify: eq.Clone(v)}, {Delete: eq.Clone(v)},
+				{Version: "0.6", Create: eq.Clone(v), Modify: &osm.OSM{}, Delete: eq.Clone(v)}} {
+				run.docSig = fmt.Sprintf("boundary/base%d/change%d/%s", c.Int("base"), k, cb.name)
+				run.checkChangeValue(ch, true)
+			}
+		}
+		res.Add("boundary_value_combinations", int64((len(combos)-int(c.Int("slice"))+3)/4))
+	case "boundary-doc":
+		// document side: written values drawn as 0 / "" / [] / {} with probability zerop
+		run.boundaryP = float64(c.Int("bp")) / 100
+		for i := 0; i < int(c.Int("docs")); i++ {
+			g := jsonw.NewGen(r, jsonw.Random{R: r, P: float64(c.Int("p")) / 100})
+			g.ZeroP = float64(c.Int("zerop")) / 100
+			g.Unknown = i%2 == 0
+			if i%4 == 3 {
+				run.checkChange(g.ChangeDoc(3), c05Style(r), r)
+				continue
+			}
+			d := g.Doc(r.Intn(int(c.Int("maxelem"))+1), int(c.Int("mask")))
+			run.checkDoc(d, c05Style(r), r, true)
+		}
 	case "rand":
+		run.boundaryP = float64(c.Int("bp")) / 100
 		for i := 0; i < int(c.Int("docs")); i++ {
 			g := jsonw.NewGen(r, jsonw.Random{R: r, P: float64(c.Int("p")) / 100})
 			g.Exotic = c.Int("exotic") == 1
 			g.Unknown = c.Int("unknown") == 1
+			g.ZeroP = float64(c.Int("zerop")) / 100
 			d := g.Doc(r.Intn(int(c.Int("maxelem"))+1), int(c.Int("mask")))
 			run.checkDoc(d, c05Style(r), r, i%4 == 0)
 		}
@@ -1235,9 +1636,22 @@ func c05Cases(tier string, seed uint64) []fw.Case {
 		cs = append(cs, fw.Case{Kind: "field", Seed: gen.Sub(seed, "c05field", k), P: map[string]int64{"kind": int64(k), "allconfigs": 1}})
 	}
 	cs = append(cs, fw.Case{Kind: "unknown-type", Seed: gen.Sub(seed, "c05unk", 0)})
-	nRand, docs, nChange := 84, 8, 10
+	for b := 0; b < 4; b++ {
+		for sl := 0; sl < 4; sl++ { // same seed: the four slices share one base container
+			cs = append(cs, fw.Case{Kind: "boundary-value", Seed: gen.Sub(seed, "c05bval", b), P: map[string]int64{"base": int64(b), "slice": int64(sl), "allconfigs": 1}})
+		}
+	}
+	nRand, docs, nChange, nBDoc := 84, 8, 10, 12
 	if tier == "thorough" {
-		nRand, docs, nChange = 1200, 16, 100
+		nRand, docs, nChange, nBDoc = 1200, 16, 100, 120
+	}
+	for i := 0; i < nBDoc; i++ {
+		p := map[string]int64{"docs": int64(docs), "mask": []int64{63, 7, 56}[i%3], "p": []int64{100, 50, 80}[(i/3)%3],
+			"zerop": []int64{100, 30, 60, 15}[i%4], "maxelem": []int64{2, 6}[i%2], "bp": []int64{0, 15}[(i/2)%2]}
+		if i%4 == 1 {
+			p["allconfigs"] = 1
+		}
+		cs = append(cs, fw.Case{Kind: "boundary-doc", Seed: gen.Sub(seed, "c05bdoc", i), P: p})
 	}
 	masks := []int64{7, 7, 63, 1, 2, 4, 56, 63}
 	ps := []int64{50, 20, 80, 100, 50, 0, 65, 35}
@@ -1246,6 +1660,12 @@ func c05Cases(tier string, seed uint64) []fw.Case {
 			"maxelem": []int64{3, 6, 12}[i%3], "exotic": int64(i % 2), "unknown": int64((i / 2) % 2)}
 		if i%4 == 3 {
 			p["allconfigs"] = 1
+		}
+		if i%5 == 4 {
+			p["zerop"] = 25
+		}
+		if i%3 == 2 {
+			p["bp"] = 8
 		}
 		cs = append(cs, fw.Case{Kind: "rand", Seed: gen.Sub(seed, "c05rand", i), P: p})
 	}
@@ -1264,7 +1684,7 @@ func init() {
 		ID:    "C05",
 		Level: "exploration",
 		Rule: "typed osmjson document models (every optional key a present/absent bit) from the harness generator: (a) fixed minimal documents; (b) all 32 combinations of generator/copyright/attribution/license/bounds for each version spelling (absent, number, string, null); " +
-			"(c) per element kind every optional part alone and all-but-it; (d) PRNG documents over kind masks, presence probabilities 0..100 %, 0-12 elements, arbitrary UTF-8 incl. control characters, negative and >2^40 ids, equivalent float and RFC 3339 spellings, unknown keys at every level; (e) change documents. " +
+			"(c) per element kind every optional part alone and all-but-it; (c') boundary values: on the value side every operator of a fixed table (non-nil pointer to an all-zero struct for top-level / way / relation bounds, committed, discussion, nested change and its blocks; empty but non-nil slices; zero ids, versions, coordinates, timestamps; empty strings; all-zero elements and members) alone, combined with an all-zero top-level bounds, and all at once, on four base containers, each as osm.OSM, as every block of an osm.Change and element by element; on the document side written values drawn as 0 / \"\" / [] / {} (bounds with members left out) with probability 15-100 %; (d) PRNG documents over kind masks, presence probabilities 0..100 %, 0-12 elements, arbitrary UTF-8 incl. control characters, negative and >2^40 ids, equivalent float and RFC 3339 spellings, unknown keys at every level; (e) change documents. " +
 			"Each model is written by the independent writer (shuffled keys, white space, \\u escapes) and unmarshalled, and the value it denotes (plus way-node annotations) is marshalled, shape-checked on a generic parse and unmarshalled again; every step under the default and the recording user codec (a quarter of the cases also with only one of the two hooks installed). " +
 			"One evaluation = one (model, flow, configuration); a signature is (flow, configuration, version spelling, top-level presence mask, bounds, unknown keys, element kinds present).",
 		Assumptions: []string{
@@ -1275,6 +1695,7 @@ func init() {
 			"json-iterator cannot run on this toolchain; the installed codec is encoding/json with SetEscapeHTML(false), indented output and UseNumber, so version numbers are limited to literals that print back identically from float64",
 			"consultation of the installed codec is asserted for the container entry points (osm.OSM, osm.Change with a block); which inner helpers call it is recorded (codec_*_types) but not asserted, because the statement only promises equal results",
 			"way/relation bounds are written either as this library spells them (MinLat) or as Overpass does (minlat); both must be read",
+			"a non-nil pointer to an all-zero optional part (bounds without extent, committed at the zero instant, discussion without comments, change without attributes and blocks, change block without attributes and objects) is identified with its absence, like nil and empty slices; what is asserted is that everything else survives next to it",
 		},
 		Cases:   c05Cases,
 		Exec:    c05Exec,
